@@ -87,17 +87,21 @@ theorem assign_without_test_accepts_constant :
   `TypeChecker::expr` implies a declarative typing. NOT proved (there is no
   Lean model of the inference algorithm as a whole).
   What is proved instead concerns the ORACLE that decides which mutants count:
-  on the fragment: literals, variables, constants, field access, unary and
-  binary operators, if (with and without else), while, blocks with `let` and
-  expression statements, calls of script functions, assignment and compound
-  assignment to locals and their fields — the flexible types of
+  on the whole core language EXCEPT diverging constructs (`return` / `accept` /
+  `reject`) and the two literals whose type no annotation can fix in place
+  (`Option.None`, `[]`; also a `match` without arms) — i.e. literals,
+  variables, constants, field access, unary and binary operators, if (with and
+  without else), while, for, match with guards and `_`, blocks with `let` and
+  expression statements, calls, enum and `Option.Some` constructors, record and
+  list literals, f-strings, `?`, assignment and compound assignment to locals
+  and their fields — the flexible types of
   `D` never cause a rejection: if SOME way of filling in the omitted literal
   suffixes and `let` annotations (`fillsE e e'`) gives a script that the plain
   ground reading of the rules accepts, then `D` accepts the script as written.
   Contrapositive: a script `D` rejects has no well-typed completion — it is
-  ill-typed whatever inference picks. Outside the fragment (`match`, `for`,
-  record / list / enum / Option constructors, `?`, `return`, f-strings) this is
-  argued in the comments of
+  ill-typed whatever inference picks. For the excluded constructs (whose types
+  are `never` / `unknown`, compatible with everything) this is argued in the
+  comments of
   Model/Typing.lean and tested (every generated well-typed original must be
   accepted by `D`: 0 slips in 400 000), not proved. -/
 
